@@ -106,7 +106,9 @@ int __wrap_idn2_to_ascii_8z(const char *input, char **output, int flags)
 /* ---------------------------------------------------------------- adapter ledger (C18) */
 #ifdef VERIF_IDN_ADAPTER
 extern long verif_idn_creates, verif_idn_destroys, verif_idn_live, verif_idn_bad_use, verif_idn_double_destroy,
-            verif_idn_encodes, verif_idn_bad_actions;
+            verif_idn_encodes, verif_idn_bad_actions, verif_idn_create_failures;
+void verif_idn_plan_create_failure(long k);
+extern long verif_idn_fail_create_countdown;
 #endif
 
 /* VERIF_POISON=none leaves fresh eav_t memory uninitialised (memcheck definedness tracking) */
@@ -159,6 +161,10 @@ static void run_history(char *line)
     char *tok, *save = NULL;
     int confirmed = -1, first = 1, default_allow;
     long base_live;
+#ifdef VERIF_IDN_ADAPTER
+    long base_cf = verif_idn_create_failures;
+    verif_idn_plan_create_failure(0);
+#endif
     poison(e, 0xA5, sizeof *e);
     g_stage = "eav_init";
     LIB(eav_init(e));
@@ -177,10 +183,15 @@ static void run_history(char *line)
             g_stage = "eav_setup";
             LIB(sr = eav_setup(e));
             if (rfc >= 0 && rfc <= 3 && sr == 0) confirmed = rfc;
+            else if (rfc >= 0 && rfc <= 3) confirmed = -1;   /* a defined mode could not be set up (back-end failure): unusable until the next successful setup */
             printf("[\"s\",%d,%d,", rfc, sr);
             g_stage = "eav_errstr";
             put_jstr(stdout, eav_errstr(e));
-            printf(",%d]", confirmed);
+#ifdef VERIF_IDN_ADAPTER
+            printf(",%d,%ld]", confirmed, verif_idn_create_failures - base_cf);
+#else
+            printf(",%d,0]", confirmed);
+#endif
         } break;
         case 'e': {
             int idx = (int)strtol(tok + 1, NULL, 10), ret, fret;
@@ -200,6 +211,10 @@ static void run_history(char *line)
 #ifdef VERIF_WRAP_IDN2
             in_fresh = 1;
 #endif
+#ifdef VERIF_IDN_ADAPTER
+            long saved_cd = verif_idn_fail_create_countdown;   /* the reference object is exempt from the fault plan */
+            verif_idn_fail_create_countdown = 0;
+#endif
             eav_init(f);
             f->rfc = (EAV_RFC)confirmed;
             f->tld_check = e->tld_check;
@@ -211,6 +226,9 @@ static void run_history(char *line)
             } else printf("null");
             eav_free(f);
             free(f);
+#ifdef VERIF_IDN_ADAPTER
+            verif_idn_fail_create_countdown = saved_cd;
+#endif
 #ifdef VERIF_WRAP_IDN2
             in_fresh = 0;
             printf(",%d,%d", fault_fired, fault_fired_code);
@@ -234,6 +252,12 @@ static void run_history(char *line)
             LIB(eav_init(e));
             confirmed = -1;
             break;
+#ifdef VERIF_IDN_ADAPTER
+        case 'C':
+            verif_idn_plan_create_failure(strtol(tok + 1, NULL, 10));
+            printf("[\"C\"]");
+            break;
+#endif
 #ifdef VERIF_WRAP_IDN2
         case 'F': {
             long k = 0; int code = 0, buf = 0;
